@@ -83,6 +83,7 @@ package data
 //@   local data []byte#1
 //@   local pbPoints *pb.Points#1
 //@   local ret []data.Point#1
+//@   fresh res0
 //@   loop 1:
 //@     invariant -1 <= rangeindex && rangeindex < len(pbPoints.Points) || rangeindex == -1
 //@     invariant pbPoints != nil && len(ret) == len(pbPoints.Points) && isfresh(ret)
@@ -222,3 +223,18 @@ package data
 //@   props C13
 //@   local v bool#1
 //@   ensures [C13] (v ==> result == 1.0) && (!v ==> result == 0.0)
+
+// Points.Find is a deterministic function of the list contents and its arguments (findValue names the Value it
+// returns; that it is the value of the first matching point is not needed by its callers' contracts).
+//@ opaque func findValue(ps []Point, typ string, key string) float64 reads ps
+//@ func (Point).IsMatch
+//@   inline
+//@ func (Points).Find
+//@   props C06
+//@   local ps data.Points#1
+//@   local typ string#1
+//@   local key string#2
+//@   assume-ensures bits64(res0.Value) == bits64(findValue(ps, typ, key))
+//@   loop 1:
+//@     invariant -1 <= rangeindex && rangeindex < len(ps) || rangeindex == -1
+//@     decreases len(ps) - rangeindex
